@@ -28,4 +28,7 @@ def subchecks(tier):
     # slotted nodes are outside the property but may sit upstream of the nodes it speaks about
     prof.weights.update({"ps": 0.0, "inf": 0.1, "slotted": 0.25, "slot_capacitated": 0.7, "slot_preempt": 0.7, "schedule": 0.45, "discipline": 0.5})
     return [system_subcheck("lattice", prof, lambda spec: [WorkConservation()], nontrivial, classes=classes,
-                            n={"quick": 9600, "thorough": 50000}, rule="finite-server lattice; idle-server-vs-waiting monitor + coverage audit")]
+                            n={"quick": 9600, "thorough": 50000}, rule="finite-server lattice; idle-server-vs-waiting monitor + coverage audit"),
+            system_subcheck("sched_blocked", common.region_profile("C05"), lambda spec: [WorkConservation()],
+                            lambda a, spec, res: a.get("rec_interrupted_service", 0) >= 1 and a.get("blocked_records", 0) >= 1, classes=classes,
+                            n={"quick": 4800, "thorough": 30000}, rule="pre-emptive schedules x blocking region (heavy load, grid times); same monitor")]
